@@ -24,7 +24,7 @@ type prop struct{}
 func (*prop) ID() string    { return "C16" }
 func (*prop) Level() string { return "exploration" }
 func (*prop) Rule() string {
-	return "seeded packages of exported / unexported structs (plain, generic, embedding covered structs by value and by pointer, embedding uncovered ones), fields exported / unexported / multi-name / of anonymous or empty struct type, defined scalar / map / slice / func types and interfaces; doc text per type and field drawn from a hostile alphabet (double and single quotes, backslashes, backquotes, %v %%, @name and name' in the middle of a line, Unicode, tabs, an interior blank comment line, tag lines at any position, a leading type/field name, block comments) " +
+	return "seeded packages of exported / unexported structs (plain, generic, embedding covered structs by value and by pointer, embedding uncovered ones), fields exported / unexported / multi-name / of anonymous or empty struct type / of named struct types with only unexported fields (time.Time, sync.Mutex, a local opaque struct) / of a named empty struct type, defined scalar / map / slice / func types and interfaces; doc text per type and field drawn from a hostile alphabet (double and single quotes, backslashes, backquotes, %v %%, @name and name' in the middle of a line, Unicode, tabs, an interior blank comment line, tag lines at any position, a leading type/field name, block comments) " +
 		"and trailing comments on neighbouring lines; the package is enabled by a package-doc tag or by per-type tags. The real runtimedoc generator runs through Execute; the harness then writes an in-package _test.go whose expectation table is derived from the text it wrote (tag lines removed, leading name trimmed, lines trimmed) and runs `go test`: " +
 		"the package must compile; for every covered type (&T{}).RuntimeDoc() == (doc, true); RuntimeDoc(f) for every listed exported field == (its doc, true); promoted fields of covered embedded structs are answered by delegation; fields of anonymous / empty struct type, unexported fields and unknown names on structs == (nil, false). " +
 		"Non-trivial = a type or field whose doc contains at least one hostile fragment, a tag line, an interior blank line or a leading name, or a delegation / negative query; distinct by hash of (kind of query, doc text)."
@@ -229,7 +229,7 @@ func (g *pkgGen) generate(pkgLevel bool) (src string, queries []query) {
 	if pkgLevel {
 		b.WriteString("// +gengo:runtimedoc\n")
 	}
-	fmt.Fprintf(&b, "package %s\n\n", g.name)
+	fmt.Fprintf(&b, "package %s\n\nimport (\n\t\"sync\"\n\t\"time\"\n)\n\nvar (\n\t_ sync.Mutex\n\t_ time.Time\n)\n\n// c16opaque has only unexported fields.\ntype c16opaque struct {\n\ta int\n\tb string\n}\n\ntype c16nothing struct{}\n\n", g.name)
 	nt := 4 + r.Intn(6)
 	var coveredStructs []*typ
 	for i := 0; i < nt; i++ {
@@ -299,7 +299,19 @@ func (g *pkgGen) generate(pkgLevel bool) (src string, queries []query) {
 					fallthrough
 				default:
 					f.names = []string{g.fname("F")}
-					f.typ = []string{"int", "string", "[]byte", "map[string]int", "*int", "error", "any", "P"}[r.Intn(7)]
+					f.typ = []string{"int", "string", "[]byte", "map[string]int", "*int", "error", "any", "time.Time", "sync.Mutex", "c16opaque", "*c16opaque", "time.Duration", "c16nothing", "P"}[r.Intn(13)]
+					if f.typ == "c16nothing" {
+						// a field whose (named) type is an empty struct is not listed
+						f.listed = false
+						f.names[0] = "Nothing" + f.names[0]
+						f.doc = genDoc(r, f.names)
+						f.doc.write(&b, "\t")
+						fmt.Fprintf(&b, "\t%s %s\n", f.names[0], f.typ)
+						hasExported = true
+						t.fields = append(t.fields, f)
+						prevTrailing = false
+						continue
+					}
 					if t.kind == "generic-struct" && r.Intn(3) == 0 {
 						f.typ = "P"
 					}
